@@ -627,7 +627,7 @@ def exhaustive(ctx, im, depth):
 
 def run(ctx):
     from props import cli_proc
-    cli_proc.stream(ctx, ['C16'])
+    cli_proc.stream(ctx, ['C16', 'C16@hash'])
     rng = ctx.rng
     im = Impl()
     try:
